@@ -252,7 +252,8 @@ Section FeatureSpace.
 
   (* a function of X^T X through its eigen-decomposition *)
   Fact fc_key : unit. Proof. by []. Qed.
-  Definition fc (f : F -> F) : 'M[F]_m := locked_with fc_key (UC *m dmap f vC *m UC^T).
+  Definition fc : (F -> F) -> 'M[F]_m :=
+    locked_with fc_key (fun f => UC *m dmap f vC *m UC^T).
   Canonical fc_unlockable := [unlockable fun fc].
   Lemma fcE f : fc f = UC *m dmap f vC *m UC^T.
   Proof. by rewrite unlock. Qed.
@@ -389,17 +390,22 @@ Section FeatureSpace.
   Lemma f_scores : X *m f_pxt = f_U *m dmap (g_sq tol) S.
   Proof. by rewrite /f_pxt /f_U !mulmxA. Qed.
 
+  Lemma f_UtU_Pi : f_U^T *m f_U = V^T *m f_Pi *m V.
+  Proof.
+    rewrite /f_U !trmx_mul [f_A^T]fc_tr -!mulmxA.
+    by rewrite (mulmxA X^T) (mulmxA f_A) (mulmxA (f_A *m _)) A_XtX_A mulmxA.
+  Qed.
+
   Lemma f_UtU f : (forall i, f (S i 0) = g_mk tol (S i 0) * f (S i 0)) ->
     f_U^T *m f_U *m dmap f S = dmap f S.
   Proof.
-    move=> hf; rewrite /f_U !trmx_mul fc_tr !mulmxA.
-    rewrite -(mulmxA _ X^T X) -(mulmxA _ f_A) -(mulmxA _ _ f_A) (mulmxA f_A) A_XtX_A.
-    by rewrite -!mulmxA (mulmxA f_Pi) Pi_V // mulmxA HV1 mul1mx.
+    move=> hf; rewrite f_UtU_Pi -!mulmxA (mulmxA f_Pi) Pi_V //.
+    by rewrite mulmxA HV1 mul1mx.
   Qed.
 
   Lemma f_orth : (X *m f_pxt)^T *m (X *m f_pxt) = dmap (fun x => g_mk tol x * x) S.
   Proof.
-    rewrite f_scores trmx_mul dmap_tr -!mulmxA (mulmxA f_U^T) (mulmxA (_ *m _)) f_UtU.
+    rewrite f_scores trmx_mul dmap_tr -mulmxA (mulmxA f_U^T) f_UtU.
       by rewrite dmap_mul; apply: dmap_ext => i; exact: g_sq_sq.
     by move=> i; rewrite g_mk_sq.
   Qed.
@@ -413,9 +419,10 @@ Section FeatureSpace.
   Lemma intertwine : s_Kt X Yh a *m (X *m f_A) = X *m f_A *m f_Ct.
   Proof.
     rewrite s_Kt_alt f_Ct_alt mulmxDl mulmxDr -!scalemxAl -!scalemxAr; congr (_ *: _ + _ *: _).
-    - rewrite !mulmxA -(mulmxA X) -(mulmxA X) -(mulmxA X).
-      by rewrite -!mulmxA XtX_fc fc_comm.
-    - by rewrite !mulmxA X_A_A_XtYh.
+    - rewrite -(mulmxA X X^T) (mulmxA X^T) -(mulmxA X f_A); congr (X *m _).
+      by rewrite XtX_fc /f_A fc_comm.
+    - rewrite (mulmxA (X *m f_A)) (mulmxA (X *m f_A)) (mulmxA (X *m f_A)).
+      by rewrite (mulmxA (X *m f_A)) (mulmxA (X *m f_A)) X_A_A_XtYh !mulmxA.
   Qed.
 
   Lemma f_U_eig : s_Kt X Yh a *m f_U = f_U *m diag_mx S^T.
@@ -423,7 +430,7 @@ Section FeatureSpace.
 
   Lemma f_scores_eig : s_Kt X Yh a *m (X *m f_pxt) = (X *m f_pxt) *m diag_mx S^T.
   Proof.
-    rewrite f_scores mulmxA f_U_eig -!mulmxA; congr (_ *m _).
+    rewrite f_scores mulmxA f_U_eig -(mulmxA f_U) -(mulmxA f_U); congr (f_U *m _).
     by rewrite dmap_id !dmap_mul; apply: dmap_ext => i; rewrite mulrC.
   Qed.
 
